@@ -118,16 +118,15 @@ theorem DI_exec (cap : Nat) (k : Kind) (ops : List Op) (h : noSClone ops = true)
     rw [exec_cons]
     exact ih (fun o ho => hs o (List.mem_cons_of_mem _ ho)) _ (DI_step s op (hs op (List.mem_cons_self ..)) hd)
 
-theorem RI_exec (cap : Nat) (k : Kind) (ops : List Op) (h : noRClose ops = true) : RI (exec (init cap k) ops) := by
-  have hs := noRClose_spec ops h
-  suffices ∀ s, RI s → RI (exec s ops) from this _ (RI_init cap k)
-  clear h
+/-- the part of the routing invariant that survives receiver `close()` holds after every program -/
+theorem RI_exec (cap : Nat) (k : Kind) (ops : List Op) : RI False (exec (init cap k) ops) := by
+  suffices ∀ s, RI False s → RI False (exec s ops) from this _ (RI_init cap k False)
   induction ops with
   | nil => intro s hd; exact hd
   | cons op ops ih =>
     intro s hd
     rw [exec_cons]
-    exact ih (fun o ho => hs o (List.mem_cons_of_mem _ ho)) _ (RI_step s op (hs op (List.mem_cons_self ..)) hd)
+    exact ih _ (RI_step s op (fun h => absurd h id) hd)
 
 /-- **Disconnected only after every sender is gone and the mailbox is drained** — partial: a
 single sender handle (no sender `clone()` in the program; with clones it is false, `C08_fails_F4a`).
@@ -174,12 +173,11 @@ theorem disc_stable_exec (s : St) (ops : List Op) (r : Nat) (x : Rx) (hx : s.rxs
     exact ih _ y hy hyd
 
 /-- **Disconnected is observed** — partial: the receiver holds at least one subscription when a
-sender handle is closed or dropped, and no receiver `close()` happened before (with an empty
-subscription set, or for a receiver cloned afterwards, it is false: `C08_fails_F4c`,
-`C08_fails_F4c_clone`). From that step on, in every continuation, the mailbox carries the
+sender handle is closed or dropped (with an empty subscription set, or for a receiver cloned
+afterwards, it is false: `C08_fails_F4c`, `C08_fails_F4c_clone`). Every program. From that step on, in every continuation, the mailbox carries the
 disconnected flag, so any receive form that finds it empty answers Disconnected — never Empty,
 Timeout, Pending or a park. -/
-theorem C08_disc_observed_partial (cap : Nat) (k : Kind) (pre : List Op) (hpre : noRClose pre = true)
+theorem C08_disc_observed_partial (cap : Nat) (k : Kind) (pre : List Op)
     (op : Op) (h : Nat) (hsd : IsShutdownOf (exec (init cap k) pre) op h)
     (r : Nat) (x : Rx) (hx : (exec (init cap k) pre).rxs[r]? = some x) (hl : x.live = true) (hs : x.subs ≠ [])
     (post : List Op) :
@@ -188,17 +186,17 @@ theorem C08_disc_observed_partial (cap : Nat) (k : Kind) (pre : List Op) (hpre :
         (step (exec (init cap k) (pre ++ op :: post)) rop).2 = .disc ∨
         (step (exec (init cap k) (pre ++ op :: post)) rop).2 = .none ∨
         (step (exec (init cap k) (pre ++ op :: post)) rop).2 = .invalid) := by
-  obtain ⟨y0, hy0, hd0, _⟩ := shutdown_disc _ op h hsd (RI_exec cap k pre hpre) r x hx hl hs
+  obtain ⟨y0, hy0, hd0, _⟩ := shutdown_disc _ op h hsd (RI_exec cap k pre) r x hx hl hs
   rw [exec_append, exec_cons]
   obtain ⟨y, hy, hyd⟩ := disc_stable_exec _ post r y0 hy0 hd0
   exact ⟨y, hy, hyd, fun hyl hyb rop ht => recv_when_disc _ rop r y ht hy hyl hyb hyd⟩
 
 /-- **C08, Disconnected clause, as far as it holds today**: for a program with a single sender
-handle and no receiver `close()`, (1) Disconnected is answered only when every sender handle is
+handle and a receiver that holds a subscription at shutdown, (1) Disconnected is answered only when every sender handle is
 gone and the mailbox is drained, (2) after that the receiver never obtains a value, (3) a
 receiver holding a subscription at shutdown does observe Disconnected once drained. -/
 theorem C08_partial (cap : Nat) (k : Kind) (pre post : List Op) (op : Op) (h r : Nat) (x : Rx)
-    (hS : noSClone (pre ++ op :: post) = true) (hR : noRClose pre = true)
+    (hS : noSClone (pre ++ op :: post) = true)
     (hsd : IsShutdownOf (exec (init cap k) pre) op h)
     (hx : (exec (init cap k) pre).rxs[r]? = some x) (hl : x.live = true) (hs : x.subs ≠ []) :
     let s := exec (init cap k) (pre ++ op :: post)
@@ -213,7 +211,7 @@ theorem C08_partial (cap : Nat) (k : Kind) (pre post : List Op) (op : Op) (h r :
     exact C08_disc_sound_partial cap k _ hS rop r ht hres hopen
   · intro hg hb more hm
     exact (C08_disc_final_partial _ r hg hb more hm).2.1
-  · exact C08_disc_observed_partial cap k pre hR op h hsd r x hx hl hs post
+  · exact C08_disc_observed_partial cap k pre op h hsd r x hx hl hs post
 
 /-- the disconnected flag of a mailbox is sticky (every program) -/
 theorem C08_disc_sticky (s : St) (ops : List Op) (r : Nat) (x : Rx) (hx : s.rxs[r]? = some x) (hd : x.disc = true) :
@@ -242,10 +240,10 @@ example :
 example :
     let pre := [Op.subscribe 0 1, .send 0 1 5]
     let post := [Op.tryRecv 0, .tryRecv 0, .send 0 1 6, .tryRecv 0]
-    noSClone (pre ++ Op.sDrop 0 :: post) = true ∧ noRClose pre = true ∧
+    noSClone (pre ++ Op.sDrop 0 :: post) = true ∧
     (∃ tx, txLive (exec (init 2 .sync) pre) 0 = some tx ∧ tx.closed = false) ∧
     results (init 2 .sync) (pre ++ Op.sDrop 0 :: post) = [.unit, .ok, .unit, .msg 1 5, .disc, .invalid, .disc] := by
-  refine ⟨by decide, by decide, ⟨{ kind := .sync, closed := false, live := true }, by decide, rfl⟩, by decide⟩
+  refine ⟨by decide, ⟨{ kind := .sync, closed := false, live := true }, by decide, rfl⟩, by decide⟩
 
 example : IsShutdownOf (exec (init 2 .sync) [Op.subscribe 0 1, .send 0 1 5]) (.sDrop 0) 0 :=
   ⟨Or.inr rfl, { kind := .sync, closed := false, live := true }, by decide, rfl⟩
